@@ -78,6 +78,8 @@ struct Entry {
     addr: SocketAddr,
     mode: Mode,
     stub: Option<StubScript>,
+    /// (frames still to be accepted in the current mode, mode to switch to afterwards)
+    mode_after: Option<(u32, Mode)>,
 }
 
 struct Inner {
@@ -152,11 +154,17 @@ impl Hub {
     pub fn register(&self, id: &str, addr: SocketAddr, th: Option<Arc<TransportHandle>>, stub: Option<StubScript>) {
         let mut g = self.inner.lock().unwrap();
         g.by_addr.insert(addr, id.to_string());
-        g.nodes.insert(id.to_string(), Entry { th: th.as_ref().map(Arc::downgrade), addr, mode: Mode::Up, stub });
+        g.nodes.insert(id.to_string(), Entry { th: th.as_ref().map(Arc::downgrade), addr, mode: Mode::Up, stub, mode_after: None });
     }
     pub fn set_mode(&self, id: &str, mode: Mode) {
         if let Some(e) = self.inner.lock().unwrap().nodes.get_mut(id) {
             e.mode = mode;
+        }
+    }
+    /// Fault in the middle of an operation: `id` handles `n` more frames in its current mode, then switches to `mode`.
+    pub fn set_mode_after(&self, id: &str, n: u32, mode: Mode) {
+        if let Some(e) = self.inner.lock().unwrap().nodes.get_mut(id) {
+            e.mode_after = Some((n, mode));
         }
     }
     pub fn set_stub(&self, id: &str, s: StubScript) {
@@ -296,9 +304,20 @@ impl MemNet for Hub {
             g.frames += 1;
             let n = g.frames;
             let jitter = if g.jitter_max_ms == 0 { 0 } else { blake3::hash(&[&g.jitter_seed.to_le_bytes()[..], &n.to_le_bytes()[..]].concat()).as_bytes()[0] as u64 * g.jitter_max_ms / 255 };
-            match g.nodes.get(to) {
-                None => (None, None, None, g.manual, jitter),
-                Some(e) => (Some(e.mode), e.th.as_ref().and_then(|w| w.upgrade()), e.stub.clone(), g.manual, jitter),
+            let manual = g.manual;
+            match g.nodes.get_mut(to) {
+                None => (None, None, None, manual, jitter),
+                Some(e) => {
+                    match e.mode_after {
+                        Some((0, m)) => {
+                            e.mode = m;
+                            e.mode_after = None;
+                        }
+                        Some((k, m)) => e.mode_after = Some((k - 1, m)),
+                        None => {}
+                    }
+                    (Some(e.mode), e.th.as_ref().and_then(|w| w.upgrade()), e.stub.clone(), manual, jitter)
+                }
             }
         };
         match mode {
